@@ -28,6 +28,7 @@ import (
 
 	"github.com/hydraide/hydraide/app/core/hydra"
 	"github.com/hydraide/hydraide/app/core/safeops"
+	"github.com/hydraide/hydraide/app/name"
 	hydrapb "github.com/hydraide/hydraide/sdk/go/hydraidego/v3/hydraidepbgo"
 	"google.golang.org/grpc/metadata"
 	"google.golang.org/grpc/status"
@@ -612,7 +613,7 @@ func child(resultPath, root, tier string, only int) {
 				if h, swName, keys, kvnil, by0, ke, ie, ok := shapeOf(method, v.req); ok {
 					exists := false
 					if nshape(swName) == "NOk" {
-						ex, err := s.Zeus.GetHydra().IsExistSwamp(1, rig.Name(swName))
+						ex, err := s.Zeus.GetHydra().IsExistSwamp(1, name.Load(swName)) // the server's own parse (first three parts)
 						exists = err == nil && ex
 						if strings.HasPrefix(swName, "c26p/") && len(swName) < 100 && touched[swName] == "" {
 							touched[swName] = method + " " + v.name
